@@ -72,6 +72,7 @@ class State:
         self.status = None   # None | 'return' | 'raise'
         self.value = None
         self.assumed = []    # (test text, outcome) of the undecidable `if` tests this path went through
+        self.mutations = []  # (node, text, number of calls recorded so far): the running item list changed in place outside a pass
 
     def clone(self):
         s = State()
@@ -79,6 +80,7 @@ class State:
         s.heap = {k: [v[0], (list(v[1]) if v[0] in ('list', 'tuple') else dict(v[1])), v[2]] for k, v in self.heap.items()}
         s.calls = list(self.calls)
         s.assumed = list(self.assumed)
+        s.mutations = list(self.mutations)
         return s
 
 
@@ -632,7 +634,49 @@ class Evaluator:
                 break
         return done + live
 
+    MUTATORS = ('pop', 'remove', 'append', 'insert', 'extend', 'clear', 'sort', 'reverse', '__delitem__', '__setitem__')
+
+    def item_mutations(self, node, st):
+        """In-place changes, inside `node`, of a variable that holds the running item list."""
+        def is_items(name):
+            v = st.env.get(name)
+            return isinstance(v, tuple) and v and v[0] in ('items', 'ref') and self.obj(st, v) is None
+        out = []
+        for n in ast.walk(node):
+            tgt = None
+            if isinstance(n, ast.Call) and isinstance(n.func, ast.Attribute) and isinstance(n.func.value, ast.Name) and n.func.attr in self.MUTATORS:
+                tgt = n.func.value.id
+            elif isinstance(n, ast.Delete):
+                for t in n.targets:
+                    if isinstance(t, ast.Subscript) and isinstance(t.value, ast.Name):
+                        tgt = t.value.id
+            elif isinstance(n, (ast.Assign, ast.AugAssign)):
+                for t in (n.targets if isinstance(n, ast.Assign) else [n.target]):
+                    if isinstance(t, ast.Subscript) and isinstance(t.value, ast.Name):
+                        tgt = t.value.id
+            if tgt is not None and is_items(tgt):
+                out.append((n, ' '.join(unparse(n).split())[:60], len(st.calls)))
+        return out
+
     def stmt(self, node, st):
+        if self.depth == 0 and isinstance(node, (ast.Expr, ast.Delete, ast.Assign, ast.AugAssign, ast.While)):
+            st.mutations.extend(self.item_mutations(node, st))
+        if isinstance(node, ast.Delete):
+            return [st]
+        if isinstance(node, ast.While):
+            # a loop whose trip count is not known: it must not drive the pipeline (no pass call inside); what it assigns is unknown
+            probe = st.clone()
+            n0 = len(probe.calls)
+            try:
+                res = self.block(node.body, [probe])
+            except Undecided:
+                raise Undecided('statement form While in the pipeline: {}'.format(unparse(node).split('\n')[0][:60]))
+            if any(len(r.calls) != n0 for r in res):
+                raise Undecided('a pass is called inside a while loop: {}'.format(unparse(node.test)[:40]))
+            for n in ast.walk(node):
+                if isinstance(n, ast.Name) and isinstance(n.ctx, ast.Store):
+                    st.env[n.id] = ('unknown', n.id)
+            return [st]
         if isinstance(node, ast.Expr):
             if not isinstance(node.value, ast.Constant):
                 self.ev(node.value, st)
@@ -798,6 +842,7 @@ class Pipeline:
                 seqs.append(calls)
                 rets.append(s.value if s.status == 'return' else None)
                 self.__dict__.setdefault('assumed', {}).setdefault(value, []).append(list(s.assumed))
+                self.__dict__.setdefault('mutations', {}).setdefault(value, []).append(list(s.mutations))
             self.__dict__.setdefault('returned', {})[value] = rets
             if not seqs:
                 raise AnalysisError('pipeline of {}: no path returns'.format(entry))
